@@ -191,7 +191,9 @@ class Effects:
                     continue
                 if n.get("k") == "assign":
                     f = self._member(n["l"])
-                    if f:
+                    from .facts import walk
+                    if f and not any(self._member(y) == f for y in walk(n["r"]) if y.get("k") == "member"):
+                        # (m = m + 1 is a read-modify-write spelled as an assignment, not a new value)
                         out.setdefault(f, []).append(n)
                 elif n.get("k") == "call":
                     c = n.get("callee") or {}
